@@ -116,7 +116,14 @@ def run_case(case) -> Outcome:  # noqa: C901, PLR0912, PLR0915
                 if case.get("nested_stream") and i == 0:
                     async for x in ctx.stream(inner_gen):
                         obs["events"].append(("inner", x))
-                yield (tag, i)
+                if case.get("gen_suspends"):
+                    await asyncio.sleep(0.5)
+                if case.get("gen_span"):
+                    # the generator's own block SPANS the yield (legal): it must be gone again once the stream is over
+                    with ctx.updated(K.state("A", 80 + i)):
+                        yield (tag, i)
+                else:
+                    yield (tag, i)
             obs["gen_probes"].append(("end", K.fp()["state"]))
             if end == "raise":
                 raise gen_err
@@ -159,6 +166,18 @@ def run_case(case) -> Outcome:  # noqa: C901, PLR0912, PLR0915
                     ended = await consume_items(stream, case["break_after"])
                     if not ended:
                         obs["end"] = "abandoned"
+                elif mode == "timeout":
+                    # the consumer is cancelled (asyncio.timeout) while the generator is suspended mid-item and survives
+                    try:
+                        async with asyncio.timeout(0.75):
+                            await consume_items(stream)
+                    except TimeoutError:
+                        obs["end"] = "timed_out"
+                    try:
+                        t = ctx.spawn(asyncio.sleep, 0)  # the consumer's own task group must still be usable
+                        await t
+                    except Exception as exc:  # noqa: BLE001
+                        obs["spawn_after"] = repr(exc)
             except BaseException as exc:  # noqa: BLE001 - anything else escaping the stream is an observation for (a)
                 if isinstance(exc, asyncio.CancelledError):
                     raise
@@ -256,7 +275,12 @@ def run_case(case) -> Outcome:  # noqa: C901, PLR0912, PLR0915
         return out
     # ---- (a) items and outcome
     want_all = [("s", i) for i in range(n)]
-    if mode == "full":
+    if mode == "timeout":
+        if case.get("gen_suspends") and n >= 2:
+            want, want_end = want_all[:1], "timed_out"
+        else:
+            want, want_end = want_all, ("stop" if end == "stop" else ("raise", gen_err))
+    elif mode == "full":
         want, want_end = want_all, ("stop" if end == "stop" else ("raise", gen_err))
     elif mode == "close_unstarted":
         want, want_end = [], "closed"
@@ -289,17 +313,19 @@ def run_case(case) -> Outcome:  # noqa: C901, PLR0912, PLR0915
             break
     # ---- (c) consumer context intact
     if obs.get("fp0") is not None:
+        reported = set()
         for when, fp, fp0 in obs["cons_fps"]:
             fp0 = fp0 or obs["fp0"]
-            if fp["state"] != fp0["state"]:
+            if fp["state"] != fp0["state"] and ("state", when) not in reported:
+                reported.add(("state", when))
                 where = "consumer-outside-any-scope" if fp0["state"].get("A") == "MissingContext" else "consumer-in-scope"
-                out.violate("c", f"C11.c/consumer-state-changed/{when}/{where}/{tag}", f"{fp0['state']} -> {fp['state']}")
-                break
-        for when, fp, fp0 in obs["cons_fps"]:
-            fp0 = fp0 or obs["fp0"]
-            if fp["metrics"] != fp0["metrics"] or fp["group"] != fp0["group"]:
+                span = "/gen-spans-yield" if case.get("gen_span") else ""
+                out.violate("c", f"C11.c/consumer-state-changed/{when}/{where}/{tag}{span}", f"{fp0['state']} -> {fp['state']}")
+            if (fp["metrics"] != fp0["metrics"] or fp["group"] != fp0["group"]) and ("ctx", when) not in reported:
+                reported.add(("ctx", when))
                 out.violate("c", f"C11.c/consumer-metrics-or-group-changed/{when}/{tag}", f"metrics {fp0['metrics']}->{fp['metrics']} group {fp0['group']}->{fp['group']}")
-                break
+    if obs.get("spawn_after") is not None:
+        out.violate("c", f"C11.c/consumer-task-group-unusable-after-stream/{tag}", obs["spawn_after"])
     # the task that finished a stream started elsewhere must keep ITS OWN state afterwards
     if obs.get("second_after") is not None and obs.get("fp0_last_consumer") is not None:
         if obs["second_after"]["state"] != obs["fp0_last_consumer"]["state"]:
@@ -307,8 +333,8 @@ def run_case(case) -> Outcome:  # noqa: C901, PLR0912, PLR0915
     # ---- (d) stream scope completed; nothing reported
     finished = [r for r in captured if "[gen]" in str(r.msg) and "finished" in str(r.msg)]
     started = [r for r in captured if "[gen]" in str(r.msg) and "Started" in str(r.msg)]
-    terminal = obs["end"] in ("stop", "closed") or isinstance(obs["end"], tuple) or obs["end"] == "abandoned"
-    unstarted = "unstarted" if (not obs["gen_probes"] and mode != "full") else "started"
+    terminal = obs["end"] in ("stop", "closed", "timed_out") or isinstance(obs["end"], tuple) or obs["end"] == "abandoned"
+    unstarted = "unstarted" if (not obs["gen_probes"] and mode not in ("full", "timeout")) else "started"
     if terminal and obs["err"] is None:
         if len(finished) != 1:
             out.violate("d", f"C11.d/stream-scope-not-completed/{unstarted}/{mode}/{consume}", f"started={len(started)} finished={len(finished)} end={obs['end']!r}")
@@ -339,8 +365,9 @@ def run_case(case) -> Outcome:  # noqa: C901, PLR0912, PLR0915
 
 def strategy(tier):
     return st.builds(
-        lambda n, end, gn, gr, ns, ci, co, mo, ba: {
+        lambda n, end, gn, gr, ns, ci, co, mo, ba, gs, gsp: {
             "items": n, "end": end, "gen_nested": gn, "gen_record": gr, "nested_stream": ns, "create_in": ci, "consume": co, "mode": mo, "break_after": ba,
+            "gen_suspends": gs or mo == "timeout", "gen_span": gsp,
         },  # fmt: skip
         st.integers(0, 4),
         st.sampled_from(["stop", "stop", "raise"]),
@@ -349,8 +376,10 @@ def strategy(tier):
         st.sampled_from([False, False, True]),
         st.sampled_from(["X", "X", "XX", "XX", "none"]),
         st.sampled_from(["same", "same", "other_scope", "outside", "other_task", "split_tasks"]),
-        st.sampled_from(["full", "full", "break", "abandon", "close_unstarted"]),
+        st.sampled_from(["full", "full", "break", "abandon", "close_unstarted", "timeout"]),
         st.integers(0, 3),
+        st.sampled_from([False, False, True]),
+        st.sampled_from([False, False, False, True]),
     )
 
 
